@@ -6,12 +6,13 @@ from . import gen
 
 
 class KFree:
-    def __init__(self, rng, price=100, cancels=True, amends=True):
+    def __init__(self, rng, price=100, cancels=True, amends=True, w_add=0.4, w_match=0.35, w_cancel=0.12):
         self.rng, self.price = rng, price
         self.book = []     # [id, qty] in arrival order
         self.nid = 1
         self.ts = rng.choice([10, 10, 1_790_000_000_000, 1_790_000_000_000_000_000, (1 << 48) - 20, (1 << 64) - 5000])
         self.cancels, self.amends = cancels, amends
+        self.w = (w_add, w_add + w_match, w_add + w_match + w_cancel)
 
     def add(self):
         r = self.rng
@@ -40,11 +41,11 @@ class KFree:
         ops = [self.add() for _ in range(r.randint(2, 5))]
         while len(ops) < n:
             x = r.random()
-            if x < 0.4:
+            if x < self.w[0] or len(self.book) < 2:
                 ops.append(self.add())
-            elif x < 0.75:
+            elif x < self.w[1]:
                 ops.append(self.match())
-            elif x < 0.87 and self.cancels and self.book:
+            elif x < self.w[2] and self.cancels and self.book:
                 i = r.randrange(len(self.book))
                 k = self.book.pop(i)[0]
                 ops.append(r.choice(["UPD C:%s" % k, "UPD UP:%s:%d" % (k, self.price + 3)]))
